@@ -46,6 +46,8 @@ struct Config {
 
 struct Stats {
     uint64_t yields = 0, switches = 0, guard_blocks = 0, guard_contended = 0;
+    uint64_t lock_blocks = 0;   // a thread found a mutex / rwlock / once held by a parked thread
+    uint64_t spin_switches = 0; // forced switches away from a thread spinning on one address
     uint64_t yields_by_kind[K_NKINDS] = {0, 0, 0, 0, 0};
     uint64_t switch_hash = 1469598103934665603ULL; // over (yield idx, to)
     bool deadlock = false, step_cap_hit = false;
@@ -77,5 +79,13 @@ bool active_worker(); // is the calling thread a scheduled worker right now?
 void guard_before_acquire(const void *g, bool complete);
 void guard_acquired(const void *g);
 void guard_released(const void *g);
+
+// blocking synchronisation of the code under test (mutexes, rwlocks,
+// pthread_once): the wrappers try the non-blocking variant and, when the
+// resource is held by a parked thread, deschedule the caller until somebody
+// releases it - really blocking would stop the world, because the holder
+// cannot run while the blocked thread keeps the token
+void block_on(const void *resource);
+void resource_released(const void *resource);
 
 } // namespace simsched
